@@ -2,7 +2,7 @@
    SpecLaws.v, SpecTerm.v). *)
 From Coq Require Import List NArith ZArith.
 Import ListNotations.
-From PP Require Import Base Syntax Spec SpecSyn SpecMono SpecLaws SpecNoErr SpecTerm SpecCert Grammars.
+From PP Require Import Base Syntax Spec SpecSyn SpecMono SpecLaws SpecNoErr SpecTerm SpecCert Grammars Interp InterpProof Gen GenProof.
 
 (* with every reference defined, the only results are a tree, a failure, or out-of-fuel:
    the model has no IndexError / UnboundLocalError / AssertionError / KeyError outcome at all,
@@ -53,9 +53,51 @@ Example wf_rejects : wf_auto [{| r_name := 5; r_silent := false; r_kind := KNorm
                                  r_body := EStar (EOpt (EStr [120%N])) |}] = false.
 Proof. vm_compute. split; reflexivity. Qed.
 
+(* ---- the two machines as modelled (Interp.v = the interpreter, Gen.v = the generated code; both
+   tied exactly to the code on every run): for every grammar the certificate accepts, every
+   start rule, input and start position, each of them FINISHES, never in an inconsistent state
+   (ICrash / GCrash: an IndexError on an empty checkpoint or rule stack), and — being functions —
+   returns the same result every time. Side conditions as in C01. *)
+Definition one_modifier (g : grammar) : Prop :=
+  forall n r, lookup g n = Some r -> r_silent r = true -> r_kind r = KNormal \/ r_kind r = KAtomic.
+Lemma one_modifier_silent_ok g : one_modifier g ->
+  forall n r, lookup g n = Some r -> r_silent r = true -> silent_ok g r.
+Proof.
+  intros NS n r L S. destruct (NS n r L S) as [K|K].
+  - right; left; exact K.
+  - left; unfold hides; rewrite K; reflexivity.
+Qed.
+
+Theorem C07_interpreter_total : forall g, one_modifier g -> wf_auto g = true ->
+  forall rule input k, exists f,
+    match iparse g f rule input k with IOk _ _ _ | IUndef => True | ICrash | IFuel => False end.
+Proof.
+  intros g NS W rule input k.
+  destruct (wf_auto_terminates g W rule input k) as [f D].
+  destruct (iparse_terminates g (one_modifier_silent_ok g NS) f rule input k _ eq_refl D) as [f' D'].
+  exists f'. pose proof (iparse_refines g (one_modifier_silent_ok g NS) f' rule input k) as R.
+  destruct (iparse g f' rule input k) as [m s ps| | |]; [exact I|exact R|exact I|congruence].
+Qed.
+
+Theorem C07_generated_total : forall g inl, one_modifier g -> inl_ok g inl -> wf_auto g = true ->
+  forall rule input k, inlined inl rule = false -> exists f,
+    match gparse g inl f rule input k with GOk _ _ _ | GUndef => True | GCrash | GFuel => False end.
+Proof.
+  intros g inl NS HI W rule input k HR.
+  destruct (wf_auto_terminates g W rule input k) as [f D].
+  destruct (gparse_terminates g inl (one_modifier_silent_ok g NS) HI f rule input k _ HR eq_refl D) as [f' D'].
+  exists f'.
+  pose proof (gparse_inl g inl HI f' rule input k HR) as B.
+  pose proof (gparse_refines g (one_modifier_silent_ok g NS) f' rule input k) as R.
+  destruct (gparse g inl f' rule input k) as [m s ps| | |]; [exact I| |exact I|congruence].
+  destruct (gparse g [] f' rule input k) as [m2 s2 ps2| | |]; try contradiction.
+Qed.
+
 Print Assumptions C07_no_crash.
 Print Assumptions C07_deterministic.
 Print Assumptions C07_fuel_irrelevant.
 Print Assumptions C07_terminates.
 Print Assumptions C07_terminates_auto.
 Print Assumptions C07_total.
+Print Assumptions C07_interpreter_total.
+Print Assumptions C07_generated_total.
